@@ -834,5 +834,23 @@ pub fn conflict_docs() -> (Vec<(String, Option<semver::Version>, Vec<u8>)>, Vec<
             }
         }
     }
+    // explicit imports on the semver track of implicit (or other explicit) imports, with every kind
+    let tys = ["func()", "func(x: u32)", "interface { f: func(); }", "interface { f: func(x: u32); }"];
+    let vers = ["foo:dep/types@1.0.0", "foo:dep/types@1.1.0", "foo:dep/types@1.2.0", "foo:dep/types@2.0.0", "f"];
+    for t in tys {
+        for v in vers {
+            for a in &names {
+                docs.push(format!("package test:comp;\nimport q as \"{v}\": {t};\nlet x = new foo:{a} {{ ... }};\n"));
+                docs.push(format!("package test:comp;\nlet x = new foo:{a} {{ ... }};\nimport q as \"{v}\": {t};\n"));
+            }
+            for t2 in tys {
+                for v2 in vers {
+                    if v != v2 {
+                        docs.push(format!("package test:comp;\nimport q as \"{v}\": {t};\nimport r as \"{v2}\": {t2};\n"));
+                    }
+                }
+            }
+        }
+    }
     (pkgs, docs)
 }
